@@ -231,7 +231,20 @@ func computeLoadEquiv(p *Prog, sums *Summaries, lf *LockFacts, fn *ssa.Function)
 			case *ssa.Call, *ssa.Go, *ssa.Defer:
 				cc := callCommon(ins)
 				if b := calleeOf(cc).Builtin; b != "len" && b != "cap" {
-					st.killElems() // any callee may hold the slice
+					// any callee may hold the slice — unless it is module code that, transitively, calls nothing outside the
+					// module and never stores through an index address or a computed pointer (generated getters, predicates)
+					pure := false
+					if gs := p.calleesOf(cc); len(gs) > 0 && b == "" {
+						pure = true
+						for _, g := range gs {
+							if t := sums.Trans[g]; t == nil || t.Elems || len(t.Calls) > 0 || t.Go {
+								pure = false
+							}
+						}
+					}
+					if !pure {
+						st.killElems()
+					}
 				}
 				if _, ok := lf.lockOpOf(cc); ok {
 					if _, isDefer := ins.(*ssa.Defer); !isDefer {
